@@ -86,6 +86,12 @@ pub struct MCase {
     pub kinds: Vec<MKind>,
     pub init: Vec<MVal>,
     pub ops: Vec<MOp>,
+    /// at the end the containers go first (dropped, or consumed with into_inner), while guards
+    /// and handles are still alive
+    #[serde(default)]
+    pub cont_first: bool,
+    #[serde(default)]
+    pub consume: bool,
 }
 
 pub fn case_strategy() -> impl Strategy<Value = MCase> {
@@ -104,8 +110,8 @@ pub fn case_strategy() -> impl Strategy<Value = MCase> {
         1 => ((0u8..4), 2u8..12).prop_map(|(c, n)| MOp::Hold(c, n)),
         2 => ((0u8..4), any::<u8>()).prop_map(|(c, i)| MOp::StoreHandle(c, i)),
     ];
-    (any::<bool>(), any::<bool>(), proptest::collection::vec(kind, 1..5), proptest::collection::vec(val(), 4), proptest::collection::vec(op, 1..40))
-        .prop_map(|(rc_family, fallback_only, kinds, init, ops)| MCase { rc_family, fallback_only, kinds, init, ops })
+    (any::<bool>(), any::<bool>(), proptest::collection::vec(kind, 1..5), proptest::collection::vec(val(), 4), proptest::collection::vec(op, 1..40), any::<bool>(), any::<bool>())
+        .prop_map(|(rc_family, fallback_only, kinds, init, ops, cont_first, consume)| MCase { rc_family, fallback_only, kinds, init, ops, cont_first, consume })
 }
 
 // ---------------------------------------------------------------------------------------------
@@ -117,7 +123,11 @@ thread_local! {
 pub struct Tr {
     id: u32,
     payload: u64,
+    /// makes the reference-counted allocation (two counters + Tr) exactly
+    /// `alloc_count::TRACKED_SIZE` bytes, a size nothing else in the harness allocates
+    _pad: [u64; 121],
 }
+const _: () = assert!(std::mem::size_of::<Tr>() + 2 * std::mem::size_of::<usize>() == crate::alloc_count::TRACKED_SIZE);
 impl Drop for Tr {
     fn drop(&mut self) {
         DESTROYED.with(|d| *d.borrow_mut().entry(self.id).or_insert(0) += 1);
@@ -211,6 +221,7 @@ pub struct MStats {
     pub debts_taken_over: usize,
     pub f9a_avoided: usize,
     pub dead_weak_stored: usize,
+    pub guard_outlives_container: usize,
     pub empties: usize,
     pub max_guards: usize,
     pub family_rc: usize,
@@ -257,8 +268,12 @@ struct World<F: Fam, St: AsStrategy<F::S> + AsStrategy<Option<F::S>> + AsStrateg
     base_slots: RefCell<HashMap<(usize, usize), usize>>,
 }
 
-fn raw_snapshot() -> Vec<(usize, Vec<usize>)> {
-    verif::nodes().into_iter().map(|n| (n.addr, n.slots)).collect()
+/// "empty slot" in a snapshot
+const EMPTY: usize = usize::MAX;
+
+/// per node: (raw content, decoded address or EMPTY) of every slot, as the hook reports them
+fn raw_snapshot() -> Vec<(usize, Vec<(usize, usize)>)> {
+    verif::nodes().into_iter().map(|n| (n.addr, n.slots.iter().copied().zip(n.slot_addrs.iter().map(|a| a.unwrap_or(EMPTY))).collect())).collect()
 }
 
 thread_local! {
@@ -275,7 +290,7 @@ where
             n.set(v + 1);
             v
         });
-        let s = F::new(Tr { id, payload: (id as u64).wrapping_mul(0x9e3779b97f4a7c15) });
+        let s = F::new(Tr { id, payload: (id as u64).wrapping_mul(0x9e3779b97f4a7c15), _pad: [0; 121] });
         let ptr = <F::S as RefCnt>::as_ptr(&s) as *const Tr;
         self.allocs.push(Alloc { id, ptr, pool: Some(s), strong_owned: 1, weak_owned: 0, sguards: 0, wguards: 0 });
         self.allocs.len() - 1
@@ -352,13 +367,13 @@ where
         }
         let mut have: HashMap<usize, usize> = HashMap::new();
         for n in verif::nodes() {
-            if n.control != 0 {
+            if !n.idle {
                 return Err(format!("node {:x} has control word {:x} between operations", n.addr, n.control));
             }
         }
         for (_, sl) in self.snapshot() {
             for s in sl {
-                if s != 3 {
+                if s != EMPTY {
                     *have.entry(s).or_insert(0) += 1;
                 }
             }
@@ -416,8 +431,8 @@ where
         }
     }
 
-    /// The slots of all nodes, as addresses: what a slot holds is the address with the kind of the
-    /// pointer in its two lowest bits (0b11 alone = empty); the audit is by address. A slot that
+    /// The slots of all nodes, as addresses (decoded by the crate's own hook; EMPTY = no debt): the
+    /// audit is by address, whatever else the crate mixes into a slot's content. A slot that
     /// was already occupied when the case started and has not changed since (left behind by an
     /// earlier, failed case of this process) reads as empty.
     fn snapshot(&self) -> Vec<(usize, Vec<usize>)> {
@@ -428,18 +443,14 @@ where
                 let sl = sl
                     .into_iter()
                     .enumerate()
-                    .map(|(i, raw)| {
+                    .map(|(i, (raw, addr))| {
                         if let Some(&b) = base.get(&(n, i)) {
                             if b == raw {
-                                return 3;
+                                return EMPTY;
                             }
                             base.remove(&(n, i));
                         }
-                        if raw == 3 {
-                            3
-                        } else {
-                            raw & !3
-                        }
+                        addr
                     })
                     .collect();
                 (n, sl)
@@ -453,9 +464,9 @@ where
     fn changed(before: &[(usize, Vec<usize>)], after: &[(usize, Vec<usize>)], from_other_to: bool, addr: usize) -> Vec<(usize, usize)> {
         let mut v = Vec::new();
         for (n, sl) in after {
-            let old = before.iter().find(|(b, _)| b == n).map(|(_, s)| s.clone()).unwrap_or_else(|| vec![3; sl.len()]);
+            let old = before.iter().find(|(b, _)| b == n).map(|(_, s)| s.clone()).unwrap_or_else(|| vec![EMPTY; sl.len()]);
             for (i, &x) in sl.iter().enumerate() {
-                let o = old.get(i).copied().unwrap_or(3);
+                let o = old.get(i).copied().unwrap_or(EMPTY);
                 if from_other_to && x == addr && o != addr {
                     v.push((*n, i));
                 }
@@ -475,79 +486,66 @@ where
         false
     }
 
-    /// A container of class `strong` is about to give `old` up: its debt walk pays every slot that
-    /// holds the address. Guards of the same class become owners (that is the design); borrowing
-    /// guards of the *other* class on the same allocation are the ones finding F9a is about.
-    /// Returns their number.
-    fn before_removal(&mut self, old: Option<usize>, strong: bool) -> usize {
-        let mut exposed = 0;
-        for g in self.guards.iter_mut() {
-            if g.alloc == old && g.in_debt {
-                if g.strong == strong {
-                    g.in_debt = false;
-                } else if old.is_some() {
-                    exposed += 1;
-                }
-                // (borrows of the empty value of the other class: nothing is counted for them;
-                // whether the walk clears their slots is read off the slots afterwards)
-            }
-        }
+    /// A container of class `strong` is about to give `old` up (bookkeeping only; what the debt
+    /// walk does to the borrowing guards is *observed* afterwards, see `resync_borrows`).
+    fn before_removal(&mut self, old: Option<usize>, _strong: bool) -> usize {
         if self.guards.iter().any(|g| g.alloc.is_some() && g.alloc == old) {
             self.stats.guard_across_foreign_write += 1;
         }
-        exposed
+        0
+    }
+
+    /// After a write: every borrowing guard whose slot no longer holds its address has been paid
+    /// for (it owns a count now). Which guards a debt walk pays is the crate's business - it may
+    /// skip the walk when the stored pointer does not change, it may key debts more finely - so
+    /// that is read off the slots, and the counts are then checked against what was observed.
+    /// Returns the number of guards on `old` of the *other* class than the writing container that
+    /// were paid: those are the cross-class payments of finding F9a.
+    fn resync_borrows(&mut self, old: Option<usize>, strong: bool) -> usize {
+        let snap = self.snapshot();
+        let mut crossed = 0;
+        for g in self.guards.iter_mut() {
+            if g.in_debt {
+                if let Some((n, i)) = g.slot {
+                    let cur = snap.iter().find(|(a, _)| *a == n).and_then(|(_, sl)| sl.get(i).copied()).unwrap_or(EMPTY);
+                    if cur != g.addr {
+                        g.in_debt = false;
+                        if g.alloc.is_some() && g.alloc == old && g.strong != strong {
+                            crossed += 1;
+                        }
+                    }
+                }
+            }
+        }
+        crossed
     }
 
     /// after a write on a container of class `strong` that removed `old`: the known cross-class
     /// payment, or a plain violation
-    /// borrows of the empty value carry no count; which of them a debt walk cleared is observed
-    fn resync_empty_borrows(&mut self) {
-        let snap = self.snapshot();
-        for g in self.guards.iter_mut() {
-            if g.alloc.is_none() && g.in_debt {
-                if let Some((n, i)) = g.slot {
-                    let cur = snap.iter().find(|(a, _)| *a == n).and_then(|(_, sl)| sl.get(i).copied()).unwrap_or(3);
-                    if cur != g.addr {
-                        g.in_debt = false;
-                    }
-                }
-            }
-        }
-    }
-
-    fn after_removal(&mut self, old: Option<usize>, strong: bool, exposed: usize, prior: Result<(), String>) -> Result<(), String> {
-        if old.is_none() {
-            self.resync_empty_borrows();
-        }
-        if exposed == 0 {
+    fn after_removal(&mut self, old: Option<usize>, strong: bool, crossed: usize, prior: Result<(), String>) -> Result<(), String> {
+        if crossed == 0 {
             prior?;
             return self.check_all();
         }
-        {
-            self.stats.cross_class_exposures += 1;
-            let a = old.unwrap();
-            let r = prior.and_then(|_| self.check_alloc(a)).and_then(|_| self.check_slots());
-            if let Err(m) = r {
-                // forget the guards whose debt was paid with the wrong kind of count: releasing
-                // them would take a count that was never added
-                let mut i = 0;
-                while i < self.guards.len() {
-                    if self.guards[i].alloc == Some(a) && self.guards[i].strong != strong {
-                        let r = self.guards.swap_remove(i);
-                        if r.strong {
-                            self.allocs[a].sguards -= 1;
-                        } else {
-                            self.allocs[a].wguards -= 1;
-                        }
-                        std::mem::forget(r.g);
-                    } else {
-                        i += 1;
-                    }
+        self.stats.cross_class_exposures += 1;
+        let a = old.unwrap();
+        // forget the guards whose debt was paid with the wrong kind of count: releasing them
+        // would take a count that was never added
+        let mut i = 0;
+        while i < self.guards.len() {
+            if self.guards[i].alloc == Some(a) && self.guards[i].strong != strong {
+                let r = self.guards.swap_remove(i);
+                if r.strong {
+                    self.allocs[a].sguards -= 1;
+                } else {
+                    self.allocs[a].wguards -= 1;
                 }
-                return Err(format!("{} {}", m, F9A_MARK));
+                std::mem::forget(r.g);
+            } else {
+                i += 1;
             }
         }
-        self.check_all()
+        Err(format!("a write to a {} container paid {} borrow slot(s) of {} guards on allocation id={} {}", if strong { "strong" } else { "weak" }, crossed, if strong { "weak" } else { "strong" }, self.allocs[a].id, F9A_MARK))
     }
 
     fn push_guard(&mut self, g: G<F, St>, c: usize, what: &str, before: &[(usize, Vec<usize>)], cas_success: bool) -> Result<(), String> {
@@ -793,6 +791,7 @@ where
         }
         self.cval[c] = a;
         self.release_fresh(v, a);
+        let exposed = exposed + self.resync_borrows(old, strong);
         match out {
             None => self.own(old, strong, -1),
             Some((p, h)) => {
@@ -852,6 +851,7 @@ where
         }
         self.cval[c] = a;
         self.own(old, strong, -1);
+        let exposed = exposed + self.resync_borrows(old, strong);
         self.after_removal(old, strong, exposed, Ok(()))
     }
 
@@ -896,6 +896,7 @@ where
         };
         drop(cur_s);
         drop(cur_w);
+        let exposed = if success { exposed + self.resync_borrows(old, strong) } else { exposed };
         if success {
             self.stats.cas_success += 1;
             self.own(a, strong, 1);
@@ -970,15 +971,53 @@ where
     }
 }
 
+/// give the containers up (drop, or into_inner and drop what comes out); guards may still be alive
+fn release_conts<F: Fam, St>(w: &mut World<F, St>, consume: bool, quiet: bool) -> Result<(), String>
+where
+    St: AsStrategy<F::S> + AsStrategy<Option<F::S>> + AsStrategy<F::W> + AsStrategy<Option<F::W>> + CaS<F::S> + CaS<Option<F::S>> + CaS<F::W> + CaS<Option<F::W>> + Default,
+{
+    let mut result = Ok(());
+    while let Some(c) = w.conts.pop() {
+        let a = w.cval.pop().unwrap();
+        let strong = !matches!(c, Cont::W(_) | Cont::OW(_));
+        if w.guards.iter().any(|g| g.alloc.is_some() && g.alloc == a) {
+            w.stats.guard_outlives_container += 1;
+        }
+        w.own(a, strong, -1);
+        if consume {
+            match c {
+                Cont::S(x) => drop(x.into_inner()),
+                Cont::O(x) => drop(x.into_inner()),
+                Cont::W(x) => drop(x.into_inner()),
+                Cont::OW(x) => drop(x.into_inner()),
+            }
+        } else {
+            drop(c);
+        }
+        let crossed = w.resync_borrows(a, strong);
+        if !quiet {
+            let r = w.after_removal(a, strong, crossed, Ok(()));
+            if result.is_ok() {
+                result = r;
+            }
+            if result.is_err() {
+                break;
+            }
+        }
+    }
+    result
+}
+
 fn run_with<F: Fam, St>(case: &MCase) -> Result<MStats, String>
 where
     St: AsStrategy<F::S> + AsStrategy<Option<F::S>> + AsStrategy<F::W> + AsStrategy<Option<F::W>> + CaS<F::S> + CaS<Option<F::S>> + CaS<F::W> + CaS<Option<F::W>> + Default,
 {
+    let live0 = crate::alloc_count::live();
     let mut w: World<F, St> = World { allocs: Vec::new(), conts: Vec::new(), cval: Vec::new(), guards: Vec::new(), handles: Vec::new(), next_id: 0, base_id: 0, stats: MStats::default(), base_slots: RefCell::new(HashMap::new()) };
     for (n, sl) in raw_snapshot() {
-        for (i, s) in sl.into_iter().enumerate() {
-            if s != 3 {
-                w.base_slots.borrow_mut().insert((n, i), s);
+        for (i, (raw, addr)) in sl.into_iter().enumerate() {
+            if addr != EMPTY {
+                w.base_slots.borrow_mut().insert((n, i), raw);
             }
         }
     }
@@ -1082,6 +1121,13 @@ where
     }
     // orderly release: guards, handles, containers (no guard is alive when a container goes, so no
     // cross-class payment can happen here), then the pool; everything must be destroyed exactly once
+    if case.cont_first && !marked {
+        let r = release_conts(&mut w, case.consume, false);
+        if result.is_ok() {
+            result = r;
+        }
+    }
+    let marked = matches!(&result, Err(m) if m.contains(F9A_MARK));
     while !w.guards.is_empty() {
         let r = w.drop_guard_(w.guards.len() - 1, true);
         if result.is_ok() {
@@ -1094,16 +1140,10 @@ where
             result = r;
         }
     }
-    while let Some(c) = w.conts.pop() {
-        let a = w.cval.pop().unwrap();
-        let strong = !matches!(c, Cont::W(_) | Cont::OW(_));
-        w.own(a, strong, -1);
-        drop(c);
-        if !marked {
-            let r = w.check_all();
-            if result.is_ok() {
-                result = r;
-            }
+    {
+        let r = release_conts(&mut w, case.consume, marked);
+        if result.is_ok() {
+            result = r;
         }
     }
     for a in 0..w.allocs.len() {
@@ -1120,6 +1160,15 @@ where
         }
     }
     DESTROYED.with(|d| d.borrow_mut().clear());
+    if !marked && result.is_ok() {
+        // every allocation of the program is gone - also the ones whose value was destroyed
+        // while weak references kept the block (a leaked weak count of a dead target shows only
+        // here)
+        let left = crate::alloc_count::live() - live0;
+        if left != 0 {
+            result = Err(format!("{} allocation(s) of this program were never freed after everything was released (a leaked strong or weak count)", left));
+        }
+    }
     if marked {
         // the known finding leaves wrong counts behind, but never an occupied slot
         if let Err(m) = w.check_slots() {
